@@ -70,7 +70,40 @@ type conn struct {
 	sendMu    sync.RWMutex              // held (R) by the harness while it delivers a message, (W) by Close
 	mu        sync.Mutex
 	inCh      chan *nats.Msg
+	subs      []subRec // every non-inbox subscription (subject pattern, channel), in subscription order
 	closed    bool
+}
+
+type subRec struct {
+	subj string
+	ch   chan *nats.Msg
+}
+
+// subjMatches is NATS subject matching (tokens, * = one token, > = one or more trailing tokens).
+func subjMatches(pat, subj string) bool {
+	pt, st := strings.Split(pat, "."), strings.Split(subj, ".")
+	for i, t := range pt {
+		if t == ">" {
+			return i == len(pt)-1 && len(st) > i
+		}
+		if i >= len(st) || (t != "*" && t != st[i]) {
+			return false
+		}
+	}
+	return len(pt) == len(st)
+}
+
+// chanFor returns the channel of the first subscription whose subject matches, like a connection that delivers a
+// message to the subscription it matches (the service decides which channel it hands to which subscription).
+func (c *conn) chanFor(subj string) chan *nats.Msg {
+	c.mu.Lock()
+	defer c.mu.Unlock()
+	for _, sr := range c.subs {
+		if subjMatches(sr.subj, subj) {
+			return sr.ch
+		}
+	}
+	return nil
 }
 
 func (c *conn) Publish(subject string, payload []byte) error {
@@ -116,8 +149,11 @@ func (c *conn) ChanSubscribe(subject string, ch chan *nats.Msg) (*nats.Subscript
 			c.qsubs = map[string]chan *nats.Msg{}
 		}
 		c.qsubs[subject] = ch
-	} else if c.inCh == nil {
-		c.inCh = ch
+	} else {
+		c.subs = append(c.subs, subRec{subject, ch})
+		if c.inCh == nil {
+			c.inCh = ch
+		}
 	}
 	c.mu.Unlock()
 	return &nats.Subscription{}, nil
@@ -198,6 +234,8 @@ type runner struct {
 	unmatched   sync.Map     // c -> true for requests sent to a resource no handler matches
 	resets      [8]int32     // system.reset messages seen per connection generation
 	onConnClose atomic.Value // func(), called at the end of conn.Close
+	lastReq     sync.Map     // group -> *int32: number of the last request whose callback was started
+	noteFn      atomic.Value // func(pt string): scenario-specific action at a Note point
 }
 
 func (r *runner) violation(what string) {
@@ -214,10 +252,32 @@ func (r *runner) pushSub(g string, c int) {
 	*p = append(*p, submission{g, c})
 }
 
+// unpushSub forgets the submission this goroutine recorded last (the call was refused before reaching runWith).
+func (r *runner) unpushSub() {
+	if v, ok := r.subs.Load(goid()); ok {
+		p := v.(*[]submission)
+		if len(*p) > 0 {
+			*p = (*p)[:len(*p)-1]
+		}
+	}
+}
+
 func (r *runner) newCb(g string) int {
 	c := int(atomic.AddInt32(&r.nextCb, 1)) + 99
 	r.cbGroup.Store(c, g)
 	return c
+}
+
+// reqOrder: the requests of one group are taken in the order in which the connection delivered them (the request
+// sender is one goroutine and numbers its messages increasingly), whatever the kind of the request.
+func (r *runner) reqOrder(c int, g string) {
+	if g == "" {
+		return
+	}
+	v, _ := r.lastReq.LoadOrStore(g, new(int32))
+	if prev := atomic.SwapInt32(v.(*int32), int32(c)); int(prev) > c {
+		r.violation(fmt.Sprintf("request-order: the callback of request %d of group %s was started after that of request %d, which was delivered later", c, g, prev))
+	}
 }
 
 func (r *runner) body(c int, g string, nested bool) {
@@ -272,15 +332,22 @@ func (r *runner) submit(g string) {
 	if c%8 == 3 && g != "" {
 		rid = fmt.Sprintf("svc.%s.first", g)
 	}
+	if c%8 == 5 && g != "" {
+		// a placeholder matches ANY token: ids whose tokens are not plain words match the handler just the same
+		// (a request for such a name would reach the handler), so With/Resource must accept them
+		odd := []string{"\u00e5sa", "a*b", "jane doe", "$", "a>b", "$x", "*", ">", "a=b&c", "\x01", "it\u00e9m"}
+		rid = fmt.Sprintf("svc.item.%s.%s", odd[(c/8)%len(odd)], g)
+	}
 	switch c % 4 {
 	case 1, 3:
 		if err := r.s.With(rid, func(res.Resource) { r.body(c, g, nested) }); err != nil {
-			r.violation("with-error: With reported an error for a resource with a matching handler: " + err.Error())
+			r.unpushSub()
+			r.violation("with-error: With reported an error for the resource id " + strconv.Quote(rid) + ", which a handler pattern matches: " + err.Error())
 		}
 	case 2:
 		rs, err := r.s.Resource(rid)
 		if err != nil {
-			r.violation("with-error: Resource reported an error for a resource with a matching handler: " + err.Error())
+			r.violation("with-error: Resource reported an error for the resource id " + strconv.Quote(rid) + ", which a handler pattern matches: " + err.Error())
 			r.s.WithGroup(g, func(*res.Service) { r.body(c, g, nested) })
 			return
 		}
@@ -350,12 +417,25 @@ func (r *runner) sendRequest(cn *conn, inCh chan *nats.Msg, g string) (ok bool) 
 		subj = "get." + g
 	} else if g == "" {
 		subj = fmt.Sprintf("get.svc.par.%d", c)
+	} else if c%5 == 2 || c%5 == 3 {
+		// requests of the other kinds for the same resource: whatever their kind, the requests of one group are to be
+		// taken in the order in which the connection delivered them
+		subj = fmt.Sprintf("%s.svc.item.%d.%s", map[int]string{2: "access", 3: "call"}[c%5], c, g)
+		if c%5 == 3 {
+			subj += ".m"
+		}
 	} else {
 		subj = fmt.Sprintf("get.svc.item.%d.%s", c, g)
 	}
 	r.lsub.mu.Lock()
 	r.lsub.q = append(r.lsub.q, submission{g, c})
 	r.lsub.mu.Unlock()
+	// the message goes to the channel of the subscription its subject matches
+	if ch := cn.chanFor(subj); ch != nil {
+		inCh = ch
+	} else {
+		r.violation("no-subscription: no subscription of the served service matches the request subject " + subj)
+	}
 	inCh <- &nats.Msg{Subject: subj, Reply: fmt.Sprintf("R%d", c), Data: nil}
 	return true
 }
@@ -397,6 +477,7 @@ func (r *runner) newService(c *conn) *res.Service {
 	s.SetQueryEventDuration(15 * time.Millisecond)
 	s.Handle("item.$c.$g", res.Group("${g}"), res.GetResource(func(q res.GetRequest) {
 		c, _ := strconv.Atoi(q.PathParam("c"))
+		r.reqOrder(c, q.PathParam("g"))
 		r.body(c, q.PathParam("g"), false)
 		if c%3 != 1 {
 			// an application error value WITHOUT code, shared by the handlers of two consecutive requests (usually of
@@ -406,6 +487,16 @@ func (r *runner) newService(c *conn) *res.Service {
 		} else {
 			q.NotFound()
 		}
+	}), res.Access(func(q res.AccessRequest) {
+		c, _ := strconv.Atoi(q.PathParam("c"))
+		r.reqOrder(c, q.PathParam("g"))
+		r.body(c, q.PathParam("g"), false)
+		q.AccessGranted()
+	}), res.Call("m", func(q res.CallRequest) {
+		c, _ := strconv.Atoi(q.PathParam("c"))
+		r.reqOrder(c, q.PathParam("g"))
+		r.body(c, q.PathParam("g"), false)
+		q.OK(nil)
 	}))
 	// two patterns that share a prefix and diverge literal vs placeholder, both continuing deeper: a name that enters
 	// the literal branch but matches only through the placeholder needs backtracking in the router
@@ -485,6 +576,9 @@ func (r *runner) run() bool {
 	var holdCtr uint32
 	verifhook.SetNote(func(pt, s string, n int) {
 		r.rec.add(pt, s, n)
+		if f, _ := r.noteFn.Load().(func(string)); f != nil {
+			f(pt)
+		}
 		// lock-hold perturbation (stress runs): now and then stay inside a critical section of s.mu for > 1 ms.
 		// Goroutines then queue up on the mutex, it switches to starvation mode and is handed over in FIFO
 		// order, which makes narrow "unlock; lock again" windows of the code under test reachable.
@@ -505,6 +599,9 @@ func (r *runner) run() bool {
 	}
 	if sc.Kind == "restartloop" {
 		return r.runRestartLoop()
+	}
+	if sc.Kind == "d11" {
+		return r.runD11()
 	}
 	c := &conn{rec: r.rec, r: r}
 	s := r.newService(c)
@@ -564,7 +661,7 @@ func (r *runner) run() bool {
 		var wg sync.WaitGroup
 		ok := true
 		switch sc.Kind {
-		case "random":
+		case "random", "reqorder":
 			for p := 0; p < sc.Producers; p++ {
 				p := p
 				r.safeGo(&wg, "WithGroup", func() {
@@ -660,7 +757,12 @@ func (r *runner) run() bool {
 				atomic.StoreUint64(&target, goid())
 				r.submit(sc.Groups[0])
 			})
-			<-blocked
+			prodDone := make(chan struct{})
+			go func() { wg.Wait(); close(prodDone) }()
+			select {
+			case <-blocked:
+			case <-prodDone: // the submission never reached runWith (refused earlier: reported by submit)
+			}
 			ok = r.shutdown(s)
 			select {
 			case <-release:
@@ -735,7 +837,11 @@ func (r *runner) run() bool {
 			}); err != nil {
 				r.violation("with-error: " + err.Error())
 			}
-			<-inCb
+			select {
+			case <-inCb:
+			case <-time.After(3 * time.Second):
+				r.violation("callback-not-started: a callback submitted to the served service was not started within 3s")
+			}
 			shutDone := make(chan bool, 1)
 			go func() { shutDone <- r.shutdown(s) }()
 			time.Sleep(60 * time.Millisecond) // the query event expires while the callback is held and Shutdown waits
@@ -785,7 +891,11 @@ func (r *runner) run() bool {
 				}); err != nil {
 					r.violation("with-error: " + err.Error())
 				}
-				<-inCb
+				select {
+				case <-inCb:
+				case <-time.After(3 * time.Second):
+					r.violation("callback-not-started: a callback submitted to the served service was not started within 3s")
+				}
 				if during {
 					closed := make(chan struct{})
 					var once int32
@@ -862,7 +972,11 @@ func (r *runner) run() bool {
 			}); err != nil {
 				r.violation("with-error: " + err.Error())
 			}
-			<-inCb
+			select {
+			case <-inCb:
+			case <-time.After(3 * time.Second):
+				r.violation("callback-not-started: a callback submitted to the served service was not started within 3s")
+			}
 			var qch chan *nats.Msg
 			var qsubj string
 			c.mu.Lock()
@@ -1170,6 +1284,107 @@ func (r *runner) runD9() bool {
 		}
 	case <-time.After(5 * time.Second):
 		r.violation("shutdown-hang: Shutdown did not return within 5s")
+		return false
+	}
+	select {
+	case <-served2:
+	case <-time.After(5 * time.Second):
+		r.violation("serve-hang: Serve did not return after Shutdown")
+		return false
+	}
+	if !c2.isClosed() {
+		r.violation("not-closed: the connection of the second cycle was not closed by Shutdown")
+	}
+	return true
+}
+
+// runD11: Serve is called again in the tail of Shutdown: the service is flagged stopped (so Serve is accepted) but the
+// Shutdown call has not finished yet. The blocked Serve call of the first cycle must still return, the second cycle
+// must be served normally (its Serve call stays blocked until its own Shutdown, callbacks run, the start-up reset is
+// on the new connection), and its Shutdown returns nil without panicking. Runtime checks only.
+func (r *runner) runD11() bool {
+	c1 := &conn{rec: r.rec, r: r, gen: 0}
+	s := r.newService(c1)
+	r.s = s
+	served1 := make(chan error, 1)
+	go func() { served1 <- s.Serve(c1) }()
+	for i := 0; i < 20000 && atomic.LoadInt32(&r.resets[0]) == 0; i++ {
+		time.Sleep(100 * time.Microsecond)
+	}
+	if atomic.LoadInt32(&r.resets[0]) == 0 {
+		r.violation("no-reset: Serve did not publish system.reset")
+		return false
+	}
+	r.submitPlain("g1")
+	r.settle(time.Second)
+	atStopped := make(chan struct{})
+	resume := make(chan struct{})
+	var once int32
+	r.noteFn.Store(func(pt string) {
+		if pt == "shutdown-stopped" && atomic.CompareAndSwapInt32(&once, 0, 1) {
+			close(atStopped)
+			select {
+			case <-resume:
+			case <-time.After(3 * time.Second):
+			}
+		}
+	})
+	defer r.noteFn.Store((func(string))(nil))
+	shut1 := make(chan bool, 1)
+	go func() { shut1 <- r.shutdown(s) }()
+	select {
+	case <-atStopped:
+	case <-time.After(3 * time.Second):
+		close(resume)
+		r.violation("harness-d11: Shutdown did not reach the point where the service is flagged stopped")
+		return <-shut1
+	}
+	// the service is stopped: Serve is accepted
+	c2 := &conn{rec: r.rec, r: r, gen: 1}
+	atomic.StoreInt32(&r.curGen, 1)
+	served2 := make(chan error, 1)
+	go func() {
+		defer func() {
+			if v := recover(); v != nil {
+				r.violation(fmt.Sprintf("panic: Serve, called once the service was stopped, panicked: %v", v))
+				served2 <- nil
+			}
+		}()
+		served2 <- s.Serve(c2)
+	}()
+	for i := 0; i < 20000 && atomic.LoadInt32(&r.resets[1]) == 0; i++ {
+		time.Sleep(100 * time.Microsecond)
+	}
+	started2 := atomic.LoadInt32(&r.resets[1]) > 0
+	close(resume)
+	if !<-shut1 {
+		return false
+	}
+	if !started2 {
+		select {
+		case err := <-served2:
+			r.violation(fmt.Sprintf("restart-refused: Serve on the stopped service came back with: %v", err))
+		default:
+			r.violation("no-reset: the second cycle did not publish system.reset on its connection")
+		}
+		return false
+	}
+	select {
+	case <-served1:
+	case <-time.After(2 * time.Second):
+		r.violation("serve-hang: the Serve call of the first cycle did not return although its Shutdown has returned (a second cycle was started in the tail of that Shutdown)")
+	}
+	select {
+	case err := <-served2:
+		r.violation(fmt.Sprintf("serve-early: the Serve call of the second cycle returned (%v) although that cycle was never shut down", err))
+		return true
+	case <-time.After(20 * time.Millisecond):
+	}
+	for k := 0; k < 3; k++ {
+		r.submitPlain("g1")
+	}
+	r.settle(time.Second)
+	if !r.shutdown(s) {
 		return false
 	}
 	select {
@@ -1558,7 +1773,7 @@ func runScenario(sc scenario) (Case, []ImplViolation, bool) {
 	r.rec.mu.Unlock()
 	cv := &conv{r: r, widx: map[uint64]int{}, retired: map[uint64]bool{}, running: map[uint64]int{}, prod: map[uint64]int{},
 		pub: map[uint64]int{}, subIdx: map[uint64]int{}, groupNum: map[string]int{}, svc: "stopped"}
-	if sc.Kind != "d9" && sc.Kind != "restartloop" {
+	if sc.Kind != "d9" && sc.Kind != "d11" && sc.Kind != "restartloop" {
 		if err := cv.convert(log); err != nil {
 			r.violation("harness-conversion: " + err.Error())
 		}
@@ -1671,6 +1886,15 @@ func main() {
 				Cycles: 2, Shutdown: "after", Seed: rng.Next()%1000000/2*2 + uint64(i%2)})
 		}
 		for i := 0; i < nd; i++ {
+			scs = append(scs, scenario{Kind: "d11", Workers: []int{1, 2, 32}[rng.Intn(3)], InCh: 1024, Groups: []string{"g1"},
+				Cycles: 2, Shutdown: "after", Seed: rng.Next() % 1000000})
+		}
+		for i := 0; i < nb; i++ {
+			// one sender delivering a long run of requests of all kinds for ONE group back to back
+			scs = append(scs, scenario{Kind: "reqorder", Workers: []int{1, 2, 4}[rng.Intn(3)], InCh: 1024, Producers: 0,
+				Requests: 400, Groups: []string{"g1"}, Cycles: 1, Shutdown: "after", Seed: rng.Next()%1000000/4*4 + 1})
+		}
+		for i := 0; i < nd; i++ {
 			scs = append(scs, scenario{Kind: "d8", Workers: []int{1, 2, 32}[rng.Intn(3)], InCh: 1024, Groups: groupSets[rng.Intn(3)],
 				Cycles: 2 + rng.Intn(2), Shutdown: []string{"none", "after"}[rng.Intn(2)], Seed: rng.Next() % 1000000})
 		}
@@ -1722,7 +1946,7 @@ func main() {
 	}
 	hdr := "From stdpp Require Import gmap.\nFrom Coq Require Import NArith String.\nFrom GoRes Require Import Run.Run_" + runMod + ".\nLocal Open Scope string_scope."
 	Emit(o, *prop, hdr, "scase",
-		"real res.Service runs (worker counts 1/2/3/8/32, in-channel 1/2/1024, 1-6 producer goroutines using WithGroup incl. nested submissions from callbacks, requests through the in-channel incl. Parallel resources, publishers, 1-3 serve/shutdown cycles, shutdown after/during/none, seeded schedule perturbation at hook points) + directed schedules d1-d10 (enqueue after close-nil, publish after shutdown, append before re-lock, parked Signal, producers during parked close, ResetAll during Serve start-up, query expiry during Shutdown with a same-group callback in flight, an in-flight callback emitting an event and a query event after the connection was closed followed by a serve cycle on a new connection; d9: first Serve refused its subscriptions while a With callback from the started window is in flight or the first Close is slow, Serve retried in a loop on a new connection - runtime checks only; d10: a query request and the expiry of a query event while a callback of the resource's group is executing; restartloop (C03 only): 1500 stop/start cycles with Serve called as soon as Shutdown has returned - runtime checks only) + simultaneous submissions to an idle group behind a spin barrier (burst) + high-contention stress runs (thousands of tiny callbacks on 1-2 groups); every serve cycle gets a fresh connection object and anything published on an earlier one is a violation; one case = one run's label trace; non-trivial = a callback was appended to a live work item and >= 2 workers took work, or a directed schedule; distinct by trace",
+		"real res.Service runs (worker counts 1/2/3/8/32, in-channel 1/2/1024, 1-6 producer goroutines using WithGroup incl. nested submissions from callbacks, requests through the in-channel incl. Parallel resources, publishers, 1-3 serve/shutdown cycles, shutdown after/during/none, seeded schedule perturbation at hook points) + directed schedules d1-d10 (enqueue after close-nil, publish after shutdown, append before re-lock, parked Signal, producers during parked close, ResetAll during Serve start-up, query expiry during Shutdown with a same-group callback in flight, an in-flight callback emitting an event and a query event after the connection was closed followed by a serve cycle on a new connection; d9: first Serve refused its subscriptions while a With callback from the started window is in flight or the first Close is slow, Serve retried in a loop on a new connection - runtime checks only; d10: a query request and the expiry of a query event while a callback of the resource's group is executing; restartloop (C03 only): 1500 stop/start cycles with Serve called as soon as Shutdown has returned - runtime checks only; d11: Serve called in the tail of Shutdown, after the service was flagged stopped and before Shutdown returned - runtime checks only; reqorder: one sender delivering 400 get/access/call requests of one group back to back, each to the channel of the subscription its subject matches, with the runtime check that their callbacks start in delivery order) + simultaneous submissions to an idle group behind a spin barrier (burst) + high-contention stress runs (thousands of tiny callbacks on 1-2 groups); every serve cycle gets a fresh connection object and anything published on an earlier one is a violation; one case = one run's label trace; non-trivial = a callback was appended to a live work item and >= 2 workers took work, or a directed schedule; distinct by trace",
 		cases, dist, nil, impl, 40)
 	if len(impl) > 0 {
 		fmt.Fprintln(os.Stderr, "impl violations:", len(impl))
